@@ -21,6 +21,33 @@ import linear
 EXT_INDEX = re.compile(r"(::index::<impl std::ops::Index(Mut)?<I> for \[T\]>::index(_mut)?$)|(as std::ops::Index(Mut)?<I>>::index(_mut)?$)|(impl std::ops::Index<I> for (str|\[T; N\])>::index$)")
 PANIC_FNS = ("std::panicking::panic_fmt", "std::panicking::panic", "std::panicking::assert_failed", "std::panicking::unreachable_display",
              "std::panicking::panic_display", "std::option::expect_failed", "std::result::unwrap_failed")
+# Standard-library calls that panic on a violated precondition (beyond indexing / unwrap / copy_from_slice, which have their
+# own obligation kinds).  (regex on the resolved callee, what must hold, how it may be discharged)
+STD_PANICS = [
+    (re.compile(r"^std::(slice::<impl \[T\]>|str::<impl str>)::split_at(_mut)?$"), "split_at: mid <= len", "mid_le_len"),
+    (re.compile(r"^std::vec::Vec::<T, A>::(remove|swap_remove)$"), "index < len", "idx_lt_len"),
+    (re.compile(r"^std::vec::Vec::<T, A>::(insert|split_off)$"), "index <= len", "mid_le_len"),
+    (re.compile(r"^std::vec::Vec::<T, A>::drain$|^std::collections::VecDeque::<T, A>::(drain|remove|insert|swap|split_off)$"), "range within len", None),
+    (re.compile(r"^std::slice::<impl \[T\]>::(swap|copy_within|rotate_left|rotate_right|select_nth_unstable\w*)$"), "indices within len", None),
+    (re.compile(r"^std::slice::<impl \[T\]>::clone_from_slice$"), "len(dst) == len(src)", "len_eq"),
+    (re.compile(r"^std::slice::<impl \[T\]>::(chunks|chunks_exact|chunks_mut|rchunks|windows|chunks_exact_mut)$"), "size != 0", "nonzero_arg"),
+    (re.compile(r"^std::iter::Iterator::step_by$"), "step != 0", "nonzero_arg"),
+    (re.compile(r"(hashbrown::HashMap|indexmap::IndexMap|std::collections::(BTreeMap|HashMap|VecDeque))<.*> as std::ops::Index(Mut)?<.*>>::index(_mut)?$"), "key / index present", None),
+    (re.compile(r"^std::cell::RefCell::<T>::(borrow|borrow_mut)$"), "not already borrowed", None),
+    (re.compile(r"^std::(option::Option::<T>|result::Result::<T, E>)::(unwrap_err|expect_err|unwrap_unchecked)$"), "variant as expected", None),
+    (re.compile(r"^std::num::<impl (u|i)(8|16|32|64|128|size)>::(pow|abs|next_power_of_two|div_euclid|rem_euclid|ilog2|ilog10|ilog)$"), "no overflow / valid operand", None),
+    (re.compile(r"^<std::time::(Duration|Instant) as std::ops::(Add|Sub|Mul|Div)(<.*>)?>::(add|sub|mul|div)$"), "no overflow", None),
+    (re.compile(r"^std::char::(from_digit|methods::<impl char>::(to_digit|from_digit))$"), "radix <= 36", None),
+]
+
+
+def std_panic(callee):
+    for rx, what, how in STD_PANICS:
+        if rx.search(callee):
+            return what, how
+    return None
+
+
 A_MEM = 1 << 56       # assumption A-MEM: in-memory lengths / sizes are below 2^56
 DEC_RET = re.compile(r"^std::result::Result<\(.*, usize\), mqtt::result_code::MqttError>$")
 
@@ -398,6 +425,24 @@ def collect(F, fn_path, tag="", inline_pred=None, facts_hook=None, loop_k=1, ren
                     q = linear.lin_add(linear.lin_add(lin.of_value(e[3][1]), lin.of_value(e[3][2])), lin.len_of(e[3][0]), -1)
                     ok = linear.entails(get_facts(), q)
                     note("precond", "ArcPayload::new", e[5], "discharged" if ok else "open", "start + length <= len(data) " + ("proved (D2)" if ok else "not proved"), p)
+                elif std_panic(callee):
+                    what, how = std_panic(callee)
+                    ok = False
+                    a = e[3]
+                    if how in ("mid_le_len", "idx_lt_len") and len(a) >= 2:
+                        q = linear.lin_add(lin.of_value(a[1]), lin.len_of(a[0]), -1)
+                        if how == "idx_lt_len":
+                            q = linear.lin_add(q, linear.const(1))
+                        ok = ent(get_facts(), q, lin)
+                    elif how == "len_eq" and len(a) >= 2:
+                        x, y = lin.len_of(a[0]), lin.len_of(a[1])
+                        ok = ent(get_facts(), linear.lin_add(x, y, -1), lin) and ent(get_facts(), linear.lin_add(y, x, -1), lin)
+                    elif how == "nonzero_arg" and len(a) >= 2:
+                        v = expand(a[1])
+                        ok = v[0] == "c" and isinstance(v[1], int) and v[1] != 0
+                    note("stdpanic", "%s (%s)" % (callee.split("::")[-1], what), e[5], "discharged" if ok else "open",
+                         "%s %s" % (what, "proved (D2)" if ok else "not proved"), p,
+                         detail=",".join(producer(x) for x in a[:2]) if not ok else None)
                 elif callee in GENERIC_ARITH and callee not in F.fns:
                     # arithmetic on a generic integer (num-traits): a trait call in MIR, no overflow assert - panics in debug
                     # builds and wraps in release builds when it overflows
